@@ -91,7 +91,7 @@ func (c *Ctx) isCallbackForwarder(call ssa.CallInstruction) bool {
 func rulePLAN1(c *Ctx) []Ob {
 	o := newObs(c, "PLAN1")
 	nodes := c.inputNodeTypes()
-	isNode := func(n *types.Named) bool {
+	isInput := func(n *types.Named) bool {
 		for _, x := range nodes {
 			if x == n {
 				return true
@@ -99,6 +99,66 @@ func rulePLAN1(c *Ctx) []Ob {
 		}
 		return false
 	}
+	// the family of the input nodes: the nodes and the structs embedded by input nodes only
+	family := map[*types.Named]bool{}
+	for _, n := range nodes {
+		family[n] = true
+	}
+	embeddedIn := func(outer *types.Named) []*types.Named {
+		var out []*types.Named
+		st, ok := outer.Underlying().(*types.Struct)
+		if !ok {
+			return nil
+		}
+		for i := 0; i < st.NumFields(); i++ {
+			if f := st.Field(i); f.Embedded() {
+				t := f.Type()
+				if p, ok := t.(*types.Pointer); ok {
+					t = p.Elem()
+				}
+				if nn, ok := t.(*types.Named); ok {
+					if _, isS := nn.Underlying().(*types.Struct); isS {
+						out = append(out, nn)
+					}
+				}
+			}
+		}
+		return out
+	}
+	if sp := c.LibPkgs[c.ModPath]; sp != nil {
+		shared := map[*types.Named]bool{}
+		for _, m := range sp.Members {
+			tn, ok := m.(*ssa.Type)
+			if !ok {
+				continue
+			}
+			named, ok := tn.Type().(*types.Named)
+			if !ok || isInput(named) {
+				continue
+			}
+			for _, e := range embeddedIn(named) {
+				shared[e] = true // embedded by something that is not an input node
+			}
+		}
+		for changed := true; changed; {
+			changed = false
+			for n := range family {
+				for _, e := range embeddedIn(n) {
+					if !shared[e] && !family[e] {
+						family[e] = true
+						changed = true
+					}
+				}
+			}
+		}
+		// a struct embedded by an outsider is not part of the family even when reached through a family member
+		for n := range family {
+			if shared[n] && !isInput(n) {
+				delete(family, n)
+			}
+		}
+	}
+	isNode := func(n *types.Named) bool { return family[n] }
 	if len(nodes) == 0 {
 		o.add(UNDECIDED, "roles", "-", "no plan input node type (struct with Run(store.Tx)) found")
 		return o.list
@@ -143,6 +203,9 @@ func rulePLAN1(c *Ctx) []Ob {
 			}
 		})
 	}
+	if len(o.list) == 0 {
+		o.add(UNDECIDED, "emit", "-", "no call passing a candidate document to the next plan node found in the input nodes (%d family types)", len(family))
+	}
 	// constructions
 	for _, fn := range c.LibFuncs {
 		for _, b := range fn.Blocks {
@@ -152,23 +215,56 @@ func rulePLAN1(c *Ctx) []Ob {
 					continue
 				}
 				n, ok := al.Type().Underlying().(*types.Pointer).Elem().(*types.Named)
-				if !ok || !isNode(n) {
+				if !ok || !isInput(n) {
 					continue
 				}
 				key := c.fname(fn) + "/new " + n.Obj().Name()
 				pos := relPath(c, al.Pos())
-				var stored ssa.Value
-				for _, r := range realReferrers(al) {
-					fa, ok := r.(*ssa.FieldAddr)
-					if !ok || !c.isCriteriaType(fa.Type().Underlying().(*types.Pointer).Elem()) {
-						continue
+				// the criteria stored in the node's filter field, directly or in an embedded
+				// family struct, inline or built by a constructor
+				var filterOf func(addr ssa.Value, depth int) ssa.Value
+				filterOf = func(addr ssa.Value, depth int) ssa.Value {
+					if depth > 4 {
+						return nil
 					}
-					for _, rr := range realReferrers(fa) {
-						if st, ok := rr.(*ssa.Store); ok && st.Addr == ssa.Value(fa) {
-							stored = st.Val
+					for _, r := range realReferrers(addr) {
+						fa, ok := r.(*ssa.FieldAddr)
+						if !ok || fa.X != addr {
+							continue
+						}
+						et := fa.Type().Underlying().(*types.Pointer).Elem()
+						if c.isCriteriaType(et) {
+							for _, rr := range realReferrers(fa) {
+								if st, ok := rr.(*ssa.Store); ok && st.Addr == ssa.Value(fa) {
+									return st.Val
+								}
+							}
+							continue
+						}
+						en, ok := et.(*types.Named)
+						if !ok || !family[en] {
+							continue
+						}
+						if v := filterOf(fa, depth+1); v != nil {
+							return v
+						}
+						for _, rr := range realReferrers(fa) {
+							st, ok := rr.(*ssa.Store)
+							if !ok || st.Addr != ssa.Value(fa) {
+								continue
+							}
+							for _, og := range c.deepOrigins(st.Val) {
+								if l, ok := og.(*ssa.UnOp); ok && l.Op == token.MUL {
+									if v := filterOf(l.X, depth+1); v != nil {
+										return v
+									}
+								}
+							}
 						}
 					}
+					return nil
 				}
+				stored := filterOf(al, 0)
 				if stored == nil {
 					o.add(VIOLATED, key, pos, "plan input node built without a filter: its candidates would be emitted unfiltered")
 					continue
@@ -386,7 +482,7 @@ func rulePLAN3(c *Ctx) []Ob {
 				return
 			}
 			// receiver: asserted result of another visitor's Accept
-			for _, og := range origins(cc.Value) {
+			for _, og := range c.deepOrigins(cc.Value) {
 				ta, ok := og.(*ssa.TypeAssert)
 				if !ok {
 					continue
@@ -986,33 +1082,53 @@ func ruleSORT1(c *Ctx) []Ob {
 	hasM := c.lookupMethod("document", "Document", "Has")
 	// the comparator: the function of the root package with a []SortOption parameter that calls Compare
 	var comp *ssa.Function
-	var optsParam *ssa.Parameter
+	isOptsT := func(t types.Type) bool {
+		sl, ok := t.Underlying().(*types.Slice)
+		return ok && c.libNamedIs(sl.Elem(), "query", "SortOption")
+	}
+	// the sort options are a parameter of the comparator or a field of its receiver
+	isOpts := func(v ssa.Value) bool { return v != nil && isOptsT(v.Type()) }
 	for _, fn := range c.LibFuncs {
 		if c.pkgRel(fn) != "" || fn.Parent() != nil {
 			continue
 		}
+		if fn.Signature.Results().Len() != 1 || !isIntType(fn.Signature.Results().At(0).Type()) {
+			continue
+		}
+		nDocs := 0
 		for _, p := range fn.Params {
-			if sl, ok := p.Type().Underlying().(*types.Slice); ok && c.libNamedIs(sl.Elem(), "query", "SortOption") {
-				calls := false
-				allCalls(fn, func(call ssa.CallInstruction) {
-					if g := staticCallee(call); g != nil && c.declared(g) == cmp {
-						calls = true
-					}
-				})
-				if calls && fn.Signature.Results().Len() == 1 && isIntType(fn.Signature.Results().At(0).Type()) {
-					comp, optsParam = fn, p
+			if c.isDocPtr(p.Type()) {
+				nDocs++
+			}
+		}
+		if nDocs != 2 {
+			continue
+		}
+		calls, indexes := false, false
+		allCalls(fn, func(call ssa.CallInstruction) {
+			if g := staticCallee(call); g != nil && c.declared(g) == cmp {
+				calls = true
+			}
+		})
+		for _, b := range fn.Blocks {
+			for _, in := range b.Instrs {
+				if ia, ok := in.(*ssa.IndexAddr); ok && isOpts(ia.X) {
+					indexes = true
 				}
 			}
 		}
+		if calls && indexes {
+			comp = fn
+		}
 	}
 	if comp == nil || hasM == nil {
-		o.add(UNDECIDED, "comparator", "-", "document comparator (func(.., .., []SortOption) int calling internal.Compare) not found")
-		return o.list
+		o.add(UNDECIDED, "comparator", "-", "document comparator (func over two documents and a []SortOption, calling internal.Compare, returning int) not found")
+		return softenUndecided(o.list)
 	}
 	var idxVal ssa.Value
 	for _, b := range comp.Blocks {
 		for _, in := range b.Instrs {
-			if ia, ok := in.(*ssa.IndexAddr); ok && ia.X == ssa.Value(optsParam) {
+			if ia, ok := in.(*ssa.IndexAddr); ok && isOpts(ia.X) {
 				idxVal = ia.Index
 			}
 		}
@@ -1049,7 +1165,7 @@ func ruleSORT1(c *Ctx) []Ob {
 		}
 		te.callHookEnv = func(call *ssa.Call, val func(ssa.Value) aval) ([]aval, bool) {
 			cc := call.Common()
-			if b, ok := cc.Value.(*ssa.Builtin); ok && b.Name() == "len" && cc.Args[0] == ssa.Value(optsParam) {
+			if b, ok := cc.Value.(*ssa.Builtin); ok && b.Name() == "len" && isOpts(cc.Args[0]) {
 				return []aval{{K: aConst, C: constant.MakeInt64(int64(len(opts)))}}, true
 			}
 			g := staticCallee(call)
@@ -1248,9 +1364,11 @@ func ruleSORT2(c *Ctx) []Ob {
 // WIN1: the skip/limit node's per-document transition, decided by predicate
 // abstraction: with A = "skipped counter < skip", B = "limit < 0", C = "consumed
 // counter < limit" injected as constants (all 8 combinations), Callback
-//   A            -> counts the document as skipped, returns nil, forwards nothing
-//   !A && (B||C) -> counts it as consumed and returns what the next node returns
-//   otherwise    -> returns the stop sentinel, forwards nothing.
+//
+//	A            -> counts the document as skipped, returns nil, forwards nothing
+//	!A && (B||C) -> counts it as consumed and returns what the next node returns
+//	otherwise    -> returns the stop sentinel, forwards nothing.
+//
 // With both counters starting at zero (checked at the node's construction) this
 // is exactly the window [skip, skip+limit).
 func ruleWIN1(c *Ctx) []Ob {
